@@ -95,6 +95,7 @@ def plan_C20(tier):
         "backends": ["c", "py"],
         "subs": [
             {"name": "schedules", "cfg": {}, "runs": n, "batch": 25},
+            {"name": "eviction_pressure", "cfg": {"pressure": True}, "runs": n // 4, "batch": 25},
             {"name": "preemption_sweep", "cfg": {"sweep": True, "sweep_cap": scale(tier, 40, 150)}, "runs": scale(tier, 50, 6000), "batch": 2, "weight": scale(tier, 8.0, 3.0)},
         ] + ([{"name": "many_threads", "cfg": {"force": {"nthreads": 5, "ops_per_thread": 12, "long_rate": 0.3, "repeat_rate": 0.25}},
                "runs": n // 10, "batch": 10}] if tier == "thorough" else []),
@@ -110,7 +111,7 @@ def evidence_C20(agg, tier):
                  "operator thread issuing cache_clear()/cache_configure(); a baton scheduler pre-empts at sys.monitoring INSTRUCTION or LINE "
                  "events of yarl's own code under a seeded policy (random walk, store-biased, PCT with 1-3 priority change points); a "
                  "'preemption_sweep' sub-batch instead takes tiny two-thread programs and executes every single-pre-emption schedule of each "
-                 "(sampled above a cap). "
+                 "(sampled above a cap); an 'eviction_pressure' sub-batch sets all nine caches to 1-2 entries while threads present fresh keys. "
                  "distinct_nontrivial = distinct schedule digests (hash of the (thread, own-step, target, code, offset) switch sequence) among "
                  "runs with at least one switch taken while another thread was parked in the middle of an operation, or inside "
                  "cache_clear/cache_configure."),
